@@ -659,7 +659,17 @@ func runParent(spec Spec, tier string, seed uint64, work, out, raceBin string, o
 	os.MkdirAll(filepath.Join(verifRoot(), "replays"), 0o755)
 	seenKey := map[string]bool{}
 	for _, v := range merged.Violations {
-		if kf, ok := known[v.Key]; ok {
+		kf, ok := known[v.Key]
+		if !ok {
+			// an entry whose key ends in '*' names a family of call sites by prefix
+			for k, f := range known {
+				if strings.HasSuffix(k, "*") && strings.HasPrefix(v.Key, strings.TrimSuffix(k, "*")) {
+					kf, ok = f, true
+					break
+				}
+			}
+		}
+		if ok {
 			if knownHit[v.Key] == 0 {
 				fmt.Printf("KNOWN-FINDING: property=%s %s [%s]\n", spec.ID, kf.What, v.Key)
 			}
